@@ -25,6 +25,14 @@ Inductive rppc :=
 Inductive rcpc :=
 | RCNotStarted | RCBegin | RCWait | RCWrite | RCPostTrash | RCExitPost | RCFlush | RCEnd | RCDone.
 
+(* one call on the stream: write(data, len) of arbitrary size, or an in-place formatted value
+   (operator<< of a number / put): Ensure(amount) then `bytes` (at most `amount` of them) at current_ *)
+Inductive rop :=
+| RWrite (bytes : list Z)
+| RPut (amount : nat) (bytes : list Z).
+
+Definition rop_bytes (o : rop) : list Z := match o with RWrite b => b | RPut _ b => b end.
+
 Record rstate := mkR {
   r_out : nat;                 (* semaphore output_ : filled blocks *)
   r_trash : nat;               (* semaphore trash_  : free blocks *)
@@ -35,7 +43,7 @@ Record rstate := mkR {
   r_cur : nat;                 (* current_ - lease_.Base() *)
   r_ppc : rppc;
   r_cpc : rcpc;
-  r_prog : list (list Z);      (* write() calls not yet started *)
+  r_prog : list rop;           (* calls not yet started *)
   r_pend : list Z;             (* rest of the write() in progress *)
   r_file : list Z;             (* bytes handed to writer_.write, in order *)
   r_wsizes : list nat;         (* sizes of the writer_.write calls, newest first *)
@@ -45,7 +53,7 @@ Record rstate := mkR {
   r_ca : nat;                  (* number of times the writer lease advanced *)
   r_hist : list (list Z) }.    (* content (first `size` bytes) of every block at the moment the owner left it *)
 
-Definition ring_init (out0 trash0 : nat) (bsize : nat) (prog : list (list Z)) : rstate :=
+Definition ring_init (out0 trash0 : nat) (bsize : nat) (prog : list rop) : rstate :=
   mkR out0 trash0 (fun _ => []) (fun _ => bsize) 0 0 0 RPCtorWait RCNotStarted prog [] [] [] 0 0 0 [].
 
 Section Ring.
@@ -58,7 +66,7 @@ Section Ring.
 
   (* adv = the lease advanced to the next block in this step *)
   Definition r_set_p (s : rstate) (adv : bool) (data : nat -> list Z) (size : nat -> nat) (cur : nat) (pc : rppc)
-             (prog : list (list Z)) (pend : list Z) : rstate :=
+             (prog : list rop) (pend : list Z) : rstate :=
     mkR (r_out s) (r_trash s) data size (if adv then r_next (r_pi s) else r_pi s) (r_ci s) cur pc (r_cpc s) prog pend
         (r_file s) (r_wsizes s) (r_flushes s) (if adv then S (r_pa s) else r_pa s) (r_ca s)
         (if adv then r_hist s ++ [firstn (size (r_pi s)) (data (r_pi s))] else r_hist s).
@@ -73,7 +81,13 @@ Section Ring.
   (* after a write() returned: start the next write() or the destructor *)
   Definition r_next_write (s : rstate) (data : nat -> list Z) (cur : nat) : rstate :=
     match r_prog s with
-    | w :: rest => r_set_p s false data (r_size s) cur (r_loop_test cur w) rest w
+    | RWrite w :: rest => r_set_p s false data (r_size s) cur (r_loop_test cur w) rest w
+    | RPut amount w :: rest =>
+      (* Ensure(amount): SpillBuffer() if the value might not fit (a block that is NOT full is handed over);
+         then the bytes are stored at current_ (scheduling point [yrest] of the hook in Ensure) *)
+      if Nat.ltb B (cur + amount) && negb (Nat.eqb cur 0) then
+        r_set_p s true data (upd (r_size s) (r_pi s) cur) cur (RPSpillPost false) rest w
+      else r_set_p s false data (r_size s) cur RPRest rest w
     | [] => r_dtor s data cur
     end.
 
